@@ -606,8 +606,171 @@ pub fn emit_derivs(g: &mut Gen, st: &ProgGen, k: usize) {
     }
 }
 
+// ---------------------------------------------------------------------------------------------
+// LARGE cases: sizes beyond any plausible chunk / threshold constant of an implementation
+// ---------------------------------------------------------------------------------------------
+
+/// `sum` instructions with 9, 17, 33, 65 terms: all variables, and constants at the start, in
+/// the middle, at the end.  `tape`: tape of the variables (C15), `t_arg` whether `t=` is printed.
+pub fn gen_big_sums(g: &mut Gen, st: &mut ProgGen, vars: &[usize], consts: &[usize]) {
+    let p = st.prefix;
+    for n in [9usize, 17, 33, 65] {
+        for pattern in ["all_variables", "constants_start", "constants_middle", "constants_end"] {
+            g.count(&format!("{}.large.sum.{}.{}", p, n, pattern));
+            let nc = 1 + g.rng.below(3);
+            let is_const = |j: usize| match pattern {
+                "constants_start" => j < nc,
+                "constants_middle" => j >= n / 2 && j < n / 2 + nc,
+                "constants_end" => j >= n - nc,
+                _ => false,
+            };
+            let terms: Vec<usize> = (0..n)
+                .map(|j| if is_const(j) { consts[j % consts.len()] } else { vars[(j * 7 + n) % vars.len()] })
+                .collect();
+            let k = st.len();
+            let t = st.tape[vars[0]];
+            st.push(false, true, 0, 0, terms.clone(), 1, t);
+            let names: Vec<String> = terms.iter().map(|a| format!("r{}", a)).collect();
+            g.op(format!("sum r{} {}", k, names.join(",")));
+            let via = pick_form(g, p, "derivs", &["at", "index", "vec"]);
+            g.op(format!("derivs r{} via={}", k, via));
+        }
+    }
+}
+
+/// a binary operation on two given results (operand choice is the caller's: long parent
+/// distances), `+ − ×` mostly, `÷`/`pow` sometimes
+pub fn far_instr(g: &mut Gen, st: &mut ProgGen, a: usize, b: usize) -> String {
+    let kinds: &[&'static str] = if st.kind == Kind::Fp {
+        &["add", "sub", "mul", "add", "sub", "mul", "add", "mul", "div", "pow"]
+    } else {
+        &["add", "sub", "mul"]
+    };
+    let kind = *g.rng.pick(kinds);
+    let k = st.len();
+    let dep = st.dep[a] || st.dep[b];
+    let t = st.tape[a].or(st.tape[b]);
+    st.push(false, dep, 0, 0, vec![a, b], 0, t);
+    g.count(&format!("{}.large.far.{}", st.prefix, kind));
+    let via = pick_form(g, st.prefix, kind, &FORMS4);
+    format!("{} r{} r{} r{} via={}", kind, k, a, b, via)
+}
+
+/// One long program: `nvars` variables first, then `size` instructions; about every third
+/// instruction combines the latest result with one of the FIRST variables (parent distances up
+/// to the program's length, fan-out of the early variables in the hundreds).
+pub fn gen_long_program(g: &mut Gen, prefix: &'static str, header: &str, nvars: usize, size: usize) {
+    let mut st = ProgGen::new(Kind::Fp, prefix);
+    g.op(header.to_string());
+    g.count(&format!("{}.large.program.size.{}", prefix, size));
+    g.count(&format!("{}.large.program.vars.{}", prefix, nvars));
+    for _ in 0..nvars {
+        let l = st.leaf_var(g, 0);
+        g.op(l);
+    }
+    let c0 = st.len();
+    for _ in 0..3 {
+        let l = st.leaf_const(g);
+        g.op(l);
+    }
+    let vars: Vec<usize> = (0..nvars).collect();
+    for i in 0..size {
+        let last = st.len() - 1;
+        let roll = g.rng.below(100);
+        let line = if roll < 35 {
+            // far back: one of the first variables (the very first ones most often)
+            let v = if g.rng.chance(1, 2) { g.rng.below(nvars.min(3)) } else { g.rng.below(nvars) };
+            if g.rng.chance(1, 2) { far_instr(g, &mut st, last, v) } else { far_instr(g, &mut st, v, last) }
+        } else if roll < 45 {
+            let c = c0 + g.rng.below(3);
+            far_instr(g, &mut st, last, c)
+        } else if roll < 50 {
+            // a medium sum over early variables and the latest result
+            let n = 9 + g.rng.below(4);
+            let mut terms: Vec<usize> = (0..n).map(|_| g.rng.below(nvars)).collect();
+            terms.push(last);
+            let k = st.len();
+            st.push(false, true, 0, 0, terms.clone(), 1, Some(0));
+            let names: Vec<String> = terms.iter().map(|a| format!("r{}", a)).collect();
+            format!("sum r{} {}", k, names.join(","))
+        } else {
+            match st.op_instr(g, None) {
+                Some(l) => l,
+                None => far_instr(g, &mut st, last, 0),
+            }
+        };
+        g.op(line);
+        if i == size / 2 {
+            let k = st.len() - 1;
+            emit_derivs(g, &st, k);
+        }
+    }
+    let _ = vars;
+    let k = st.len() - 1;
+    emit_derivs(g, &st, k);
+    // a result that certainly depends on the first variable, far away from it
+    let l = far_instr(g, &mut st, k, 0);
+    g.op(l);
+    g.op(format!("derivs r{} via=vec", st.len() - 1));
+}
+
+/// A chain of `steps` one-entry operations and then an operation that uses the FIRST variable
+/// again: a parent more than `steps` entries back.  (Thorough tier; the Lean side answers it with
+/// the array-backed evaluation, header `@ tape fp big`.)
+pub fn gen_chain(g: &mut Gen, prefix: &str, header: &str, steps: usize) {
+    g.count(&format!("{}.large.chain.{}", prefix, steps));
+    g.op(header.to_string());
+    let (v0, v1) = (g.rng.next() % P, g.rng.next() % P);
+    g.op(format!("var r0 {} via=record", v0));
+    g.op(format!("var r1 {} via=list", v1));
+    g.op("mul r2 r0 r1 via=ref_ref".to_string());
+    let mut k = 3;
+    for _ in 0..steps {
+        let c = g.rng.next() % P;
+        let line = match g.rng.below(6) {
+            0 => format!("muln r{} r{} {} via=ref_ref", k, k - 1, c),
+            1 => format!("addn r{} r{} {} via=val_ref", k, k - 1, c),
+            2 => format!("subsw r{} r{} {} via=ref_val", k, k - 1, c),
+            3 => format!("sin r{} r{} via=ref", k, k - 1),
+            4 => format!("add r{} r{} r1 via=ref_ref", k, k - 1),
+            _ => format!("neg r{} r{} via=ref", k, k - 1),
+        };
+        g.op(line);
+        k += 1;
+    }
+    g.op(format!("mul r{} r{} r0 via=ref_ref", k, k - 1));
+    g.op(format!("derivs r{} via=vec", k));
+    g.op(format!("sub r{} r{} r0 via=val_val", k + 1, k));
+    g.op(format!("derivs r{} via=at", k + 1));
+}
+
+/// the LARGE section of C04 / C05 (`header`: `@ tape fp` / `@ trace fp`)
+pub fn gen_large(g: &mut Gen, prefix: &'static str, header: &str) {
+    // big sums
+    let mut st = ProgGen::new(Kind::Fp, prefix);
+    g.op(header.to_string());
+    for _ in 0..6 {
+        let l = st.leaf_var(g, 0);
+        g.op(l);
+    }
+    for _ in 0..2 {
+        let l = st.leaf_const(g);
+        g.op(l);
+    }
+    gen_big_sums(g, &mut st, &[0, 1, 2, 3, 4, 5], &[6, 7]);
+    // long programs, many variables
+    let sizes: &[(usize, usize)] = if g.thorough { &[(72, 300), (90, 1000), (10, 3000)] } else { &[(72, 300), (80, 700)] };
+    for &(nvars, size) in sizes {
+        gen_long_program(g, prefix, header, nvars, size);
+    }
+}
+
 pub fn gen(g: &mut Gen) {
-    let (n_fp, n_rat) = if g.thorough { (30000, 6000) } else { (1500, 400) };
+    let (n_fp, n_rat) = if g.thorough { (20000, 4000) } else { (1500, 400) };
+    gen_large(g, "c04.fp", "@ tape fp");
+    if g.thorough {
+        gen_chain(g, "c04.fp", "@ tape fp big", 70_100);
+    }
     // hand-written cases first: one of each one-constant-operand shape
     for line in [
         "@ tape fp", "var r0 5 via=record", "const r1 7 via=constant", "sub r2 r1 r0 via=ref_ref",
